@@ -58,6 +58,8 @@ type simIn struct {
 	MustDisq []int             `json:"must_disq,omitempty"`
 	MustFail bool              `json:"must_fail,omitempty"`
 	MustKeys bool              `json:"must_keys,omitempty"`
+	// scripted participants whose script is exactly an honest run (for some polynomial): the property counts them as honest
+	ActsHonest []int `json:"acts_honest,omitempty"`
 }
 
 type simMsg struct {
@@ -752,7 +754,7 @@ func simRunCase(in *simIn, behave bool) (string, map[string]any, bool, error) {
 		}
 		return "[" + strings.Join(s, "; ") + "]"
 	}
-	term := fmt.Sprintf("mkSim %d%%N %d %d %d %s %s %s %s\n  [%s]", proto, in.N, in.T, in.Dealer, nat(sr.order), nat(in.MustDisq),
+	term := fmt.Sprintf("mkSim %d%%N %d %d %d %s %s %s %s\n  [%s]", proto, in.N, in.T, in.Dealer, nat(append(append([]int{}, sr.order...), in.ActsHonest...)), nat(in.MustDisq),
 		cqbool(in.MustFail), cqbool(in.MustKeys), strings.Join(parts, ";\n   "))
 	return term, obs, events > 0, nil
 }
